@@ -232,7 +232,21 @@ impl FaultFamily {
 
 impl Family for FaultFamily {
     fn name(&self) -> String {
-        format!("faults:{}", self.spec.label)
+        // "faults:<mode> [<conversation>]" so that the evidence can list one line per mode
+        let l = &self.spec.label;
+        match (l.find('('), l.find(')')) {
+            (Some(a), Some(b)) if a < b => {
+                let mode = &l[a + 1..b];
+                let rest = format!("{}{}", &l[..a].trim_end(), &l[b + 1..]);
+                let (rest, rb) = match rest.find(" [read boundary") {
+                    Some(i) => (rest[..i].to_string(), ", one read boundary"),
+                    None => (rest, ""),
+                };
+                let at = l.find("[read boundary at ").map(|i| l[i + 18..].trim_end_matches(']').to_string());
+                format!("faults:{}{} [{}{}]", mode, rb, rest, at.map(|x| format!(" @{}", x)).unwrap_or_default())
+            }
+            _ => format!("faults:large requests [{}]", l),
+        }
     }
     fn len(&self) -> u64 {
         self.eof_points.len() as u64 + self.base_ops.len() as u64 * self.per_op + self.write_ops.len() as u64 + if self.spec.sparse { 0 } else { self.base_ops.len() as u64 }
